@@ -11,6 +11,12 @@ Decided (necessary structural conditions only; this and C20 are the weakest clai
   C01.corr     channel decorrelation: for every channel assignment the encoder emits (which channel, which depth) in the
                slots the decoder reads them from, in both the fast and the exhaustive search; difference = left - right,
                average = (left + right) >> 1; the decoder reads the side channel with one extra bit in the same slot
+  C01.zero     the all-zero shortcut of every channel handed to encode_subframe is computed from that channel's own
+               samples (sum of magnitudes accumulated over the same iterator / all(== 0)); constant subframes only under it
+  C01.fixed    fixed-predictor residuals are iterated differences next - previous; warm-up = channel[0..order]
+  C01.wasted   wasted bits = min trailing zeros; the shifted samples, the reduced depth and the header field come from one
+               value and reach all four subframe writers together
+  C01.slot     encode_frame writes the two stereo subframes in the slot order of the Correlated result (both branches)
   C01.carve    a seek table inserted at finalize takes its total size (block header included) out of the padding, on the
                Some edge of the checked subtraction only: the rewritten metadata never grows over the first frame (shared with C09)
   C01.cache    reusable scratch buffers and bit recorders are cleared before they are refilled
@@ -84,6 +90,29 @@ def run(ctx, rep):
         b = db[0]
         ne = [s for bl in b.blocks for s in bl["s"] if s["rv"]["r"] == "bin" and s["rv"]["op"] == "Ne"]
         rep.check("C01.part", "decoder compares the chunk count with the partition count", len(ne) >= 1 and any(eb.path == b.path for eb, _, _ in error_sites(F, "InvalidPartitionOrder")), loc_of(b))
+    # block size = predictor order + number of residuals, on both sides
+    for path, consumer, argi in (("encode::write_residuals", r"write_residuals::best_partitions$", 1), ("decode::read_residuals::read_block", None, None)):
+        bs_ = [x for x in F.bodies if x.promoted is None and x.kind != "Closure" and (x.path == path or strip_generics(x.path) == path)]
+        if not bs_:
+            rep.bad("C01.part", "anchor:" + path, "", "not found")
+        for b in bs_[:1]:
+            adds = []
+            for bl in b.blocks:
+                for st_ in bl["s"]:
+                    rv = st_["rv"]
+                    if rv["r"] == "bin" and rv["op"].startswith("Add"):
+                        ra, rb_ = root_place(b, rv["a"]), root_place(b, rv["b"])
+                        sa, sb = backward_slice(b, rv["a"]), backward_slice(b, rv["b"])
+                        names = {b.local_name(x["l"]) for x in (ra, rb_) if x is not None and 1 <= x["l"] <= b.j["argc"]}
+                        has_len = any(re.search(r"<impl \[T\]>::len$", callee_name(c)) for c in sa["calls"] + sb["calls"])
+                        if has_len and names:
+                            adds.append((st_, names))
+            good = len(adds) >= 1
+            if good and consumer:
+                cons = [t for _, t in b.calls() if re.search(consumer, callee_name(t))]
+                good = bool(cons) and all(any(o.startswith("Add") for o in backward_slice(b, t["a"][argi])["ops"]) for t in cons)
+            rep.check("C01.part", "%s: block size = predictor order + number of residuals" % path, good, loc_of(b), "",
+                      "the partition layout is computed from a block size that is not `predictor order + residual count`: encoder and decoder cut the residuals differently")
     # both sides cut the residual buffer from the back with block / count
     for path, fn in (("encode::write_residuals::best_partitions", "rchunks"), ("decode::read_residuals::read_block", "rchunks_mut")):
         for b in F.one(path):
@@ -116,8 +145,46 @@ def run(ctx, rep):
         rep.floor("C01.fallback", "candidate calls in encode_subframe", len(cand), 2)
         vb = [t for _, t in eb.calls() if strip_generics(callee_name(t)) == "encode::encode_verbatim_subframe"]
         rep.check("C01.fallback", "verbatim fallbacks exist (both candidates failed / fixed failed / candidate not smaller)", len(vb) >= 1, loc_of(eb), "%d" % len(vb))
-        # the join arms: (Err, Ok) -> lpc ; (Ok, Err) -> fixed
+        # the join arms: (Err, Ok) -> lpc ; (Ok, Err) -> fixed : a recorder is only used after ITS encoder returned Ok
         pf = ok.path_facts(eb)
+        slot_of = {}
+        for bi, t in eb.calls():
+            if strip_generics(callee_name(t)) in ("encode::join", "rayon::join"):
+                for k, c in enumerate(t["cls"]):
+                    cb = F.body(c)
+                    for _, ct in (cb.calls() if cb else []):
+                        if re.match(r"encode::encode_(fixed|lpc)_subframe$", strip_generics(callee_name(ct))):
+                            for a, ty in zip(ct["a"], ct["aty"]):
+                                if "BitRecorder" in ty:
+                                    cs = capture_source(F, cb, a)
+                                    if cs and cs[1]:
+                                        for f_ in place_fields(cs[1]):
+                                            if f_.endswith("_output"):
+                                                slot_of[f_] = "#%d" % k
+        nuse = 0
+        for bi, bl in enumerate(eb.blocks):
+            f = pf.get(bi) or frozenset()
+            decided = [x for x in f if x[0] == "is" and x[1] in ("Ok", "Err") and ("call:encode::join(" in str(x[2]) or "call:encode::encode_fixed_subframe(" in str(x[2]))]
+            if not decided:
+                continue
+            for st_ in bl["s"]:
+                if st_["rv"]["r"] != "ref":
+                    continue
+                fl = place_fields(root_place(eb, st_["rv"]["p"]))
+                rec = [x for x in fl if x in ("fixed_output", "lpc_output")]
+                if not rec:
+                    continue
+                rec = rec[-1]
+                nuse += 1
+                def mine(x):
+                    d = str(x[2])
+                    if "call:encode::join(" in d:
+                        return d.endswith(slot_of.get(rec, "#?"))
+                    return rec == "fixed_output"
+                okk = any(x[1] == "Ok" and mine(x) for x in decided) and not any(x[1] == "Err" and mine(x) for x in decided)
+                rep.check("C01.fallback", "%s is selected only on a path where its own encoder returned Ok" % rec, okk, eb.loc(st_["sp"]), "",
+                          "%s is used as the subframe although its encoder failed (or the other one's result was tested): a partially written candidate would be emitted; facts: %s" % (rec, fact_str(frozenset(decided))))
+        rep.floor("C01.fallback", "candidate selections after the encoders returned", nuse, 4)
 
     # ---- C01.pred -----------------------------------------------------------------------------------------------
     sigs = {}
@@ -149,6 +216,21 @@ def run(ctx, rep):
                       "%s prediction has signature %s (expected rev+zip+map+sum, 64-bit products, one shift applied after the sum) / %s present: %s" % (name, sigs[name], combine, has))
     if len(sigs) == 3:
         rep.check("C01.pred", "encoder and both decoders use the same prediction expression", len(set(sigs.values())) == 1, "", str(sigs))
+    for b in anchor(F, rep, "C01.pred", "encode::LpcSubframeParameters::encode_residuals", multi=True):
+        rg = [st_ for bl in b.blocks for st_ in bl["s"] if st_["rv"]["r"] == "agg" and st_["rv"].get("adt") == "std::ops::Range"]
+        kinds = []
+        for st_ in rg:
+            o0, o1 = st_["rv"]["ops"]
+            s0, s1 = backward_slice(b, o0), backward_slice(b, o1)
+            arith = lambda sl: {o for o in sl["ops"] if o.replace("WithOverflow", "") in ("Add", "Sub", "Mul", "Shl", "Shr")}
+            if op_int(o0) == 0 and "order" in s1["fields"] and not arith(s1):
+                kinds.append("warmup")
+            elif "order" in s0["fields"] and not arith(s0) and any(re.search(r"::len$", callee_name(c)) for c in s1["calls"]) and not arith(s1):
+                kinds.append("loop")
+            else:
+                kinds.append("other")
+        rep.check("C01.pred", "encoder: residuals start at sample `order`, warm-up = channel[0..order] (no offset)", sorted(kinds) == ["loop", "warmup"], loc_of(b), str(kinds),
+                  "the LPC warm-up slice / residual loop do not split the block at exactly `order`: %s" % kinds)
     # truncation of the prediction to the sample width happens on both sides
     for b in anchor(F, rep, "C01.pred", "encode::LpcSubframeParameters::encode_residuals", multi=True):
         casts = [s for bl in b.blocks for s in bl["s"] if s["rv"]["r"] == "cast" and s["rv"].get("from") == "i64" and s["rv"]["ty"] == "i32"]
@@ -302,6 +384,238 @@ def run(ctx, rep):
                 rep.check("C01.corr", "decoder %s (%s): extra-bit subframe in slot %d" % (arm, "bps < 32" if br == "Some" else "bps = 32", want.index(True)), seq == want, loc_of(rb), str(seq),
                           "decoder reads %s with the extra side bit in %s, the encoder emits it in slot %d" % (arm, seq, want.index(True)))
         rep.floor("C01.corr", "decoder slot rows", nd, 6)
+
+    # ---- C01.zero: the all-zero shortcut of a channel is computed from that very channel --------------------------
+    zb = anchor(F, rep, "C01.zero", "encode::correlate_channels")
+    nz = 0
+    if zb is not None:
+        def all_closures(b0):
+            out = []
+            for c in F.closures_of(b0):
+                out.append(c)
+                out += all_closures(c)
+            return out
+        sumclass = {}
+        for body in [zb] + all_closures(zb):
+            for bi, t in body.calls():
+                if not re.search(r"Iterator::inspect$", callee_name(t)):
+                    continue
+                cls_ = None
+                for k, c in origins(body, t["a"][0]):
+                    if k != "call":
+                        continue
+                    if re.search(r"<impl \[T\]>::iter$", callee_name(c)):
+                        cs = capture_source(F, body, c["a"][0]) if op_place(c["a"][0]) else None
+                        if cs and cs[1]:
+                            cls_ = "left" if "[c0/2]" in cs[1]["p"] else "right" if "[c1/2]" in cs[1]["p"] else None
+                    elif re.search(r"Iterator::map$", callee_name(c)) and c["cls"]:
+                        mb = F.body(c["cls"][0])
+                        names = [callee_name(x) for _, x in mb.calls()] if mb else []
+                        if any(re.search(r"Sub<&i32>>::sub$", n) for n in names):
+                            cls_ = "difference"
+                        elif any(re.search(r"Add<&i32>>::add$", n) for n in names):
+                            cls_ = "average"
+                for k, x in origins(body, t["a"][1]):
+                    if k == "agg" and x["ak"] == "closure" and x["ops"]:
+                        cs = capture_source(F, body, op_place(x["ops"][0]))
+                        if cs and cs[1] is not None and cs[0].path == zb.path and cls_:
+                            sumclass.setdefault(cs[1]["l"], set()).add(cls_)
+        for bi, bl in enumerate(zb.blocks):
+            for st_ in bl["s"]:
+                rv = st_["rv"]
+                if rv["r"] != "agg" or rv.get("adt") != "encode::CorrelatedChannel":
+                    continue
+                sl = backward_slice(zb, rv["ops"][0])
+                src = "difference" if "difference_samples" in sl["fields"] else "average" if "average_samples" in sl["fields"] else "left" if "[c0/2]" in sl["elems"] else "right" if "[c1/2]" in sl["elems"] else None
+                z = rv["ops"][2]
+                good, detail = False, ""
+                if op_int(z) == 0:
+                    good, detail = True, "all_0: false"
+                else:
+                    for k, x in origins(zb, z):
+                        if k == "bin" and x["op"] == "Eq" and 0 in (op_int(x["a"]), op_int(x["b"])):
+                            v = x["a"] if op_int(x["b"]) == 0 else x["b"]
+                            rp = root_place(zb, v)
+                            cl = sumclass.get(rp["l"], set()) if rp else set()
+                            detail = "sum of |%s| == 0" % "/".join(sorted(cl))
+                            good = cl == {src}
+                nz += 1
+                rep.check("C01.zero", "fast search: the all-zero flag of the %s channel is derived from the %s samples" % (src, src), good, zb.loc(st_["sp"]), detail,
+                          "a channel holding the %s samples is marked all-zero from %s: a non-silent channel would be written as a constant 0 subframe" % (src, detail))
+    ib = anchor(F, rep, "C01.zero", "encode::CorrelatedChannel::independent")
+    if ib is not None:
+        al = [t for _, t in ib.calls() if re.search(r"Iterator::all$|Iterator>::all$", callee_name(t))]
+        good = len(al) == 1 and bool(al[0]["cls"])
+        if good:
+            cb = F.body(al[0]["cls"][0])
+            f = ok.closure_bool_facts(cb) if cb else frozenset()
+            good = any(x[0] == "cmp" and x[1] == "Eq" and "const:0" in (str(x[2]), str(x[3])) for x in f)
+        nz += 1
+        rep.check("C01.zero", "independent channel: all-zero flag = every sample == 0", good, loc_of(ib), "",
+                  "CorrelatedChannel::independent no longer computes the all-zero flag with all(|s| s == 0)")
+    rep.floor("C01.zero", "all-zero flags classified", nz, 15)
+    eb0 = F.one("encode::encode_subframe")
+    if eb0:
+        eb0 = eb0[0]
+        pf0 = ok.path_facts(eb0)
+        for bi, t in eb0.calls():
+            if strip_generics(callee_name(t)) == "encode::encode_constant_subframe":
+                f = pf0.get(bi) or frozenset()
+                good = any(x[0] == "flag" and x[1] is True and "all_0" in str(x[2]) for x in f) or any(x[0] == "is" and x[1] == "Some" for x in f) or any(x[0] == "cmp" for x in f)
+                rep.check("C01.zero", "a constant subframe is written only under the all-zero flag or the all-bits-wasted result", good, loc_of(eb0, t), "", "facts: %s" % fact_str(f))
+
+    from rules import C02
+    C02.rice_escape_rules(F, ok, rep, "C01")
+    C17.fold_rules(F, rep, "C01")
+    C17.decoder_depth_rules(F, ok, rep, "C01")
+
+    # ---- C01.fixed: the encoder's fixed-predictor residuals are iterated differences next - previous ---------------
+    fx = anchor(F, rep, "C01.fixed", "encode::encode_fixed_subframe")
+    if fx is not None:
+        subs = [(bi, t) for bi, t in fx.calls() if re.search(r"<impl i32>::checked_sub$", callee_name(t))]
+        zips = [(bi, t) for bi, t in fx.calls() if re.search(r"Iterator::zip$", callee_name(t))]
+        good = len(subs) == 1 and len(zips) == 1
+        detail = ""
+        if good:
+            a0, a1 = root_place(fx, subs[0][1]["a"][0]), root_place(fx, subs[0][1]["a"][1])
+            i0 = [e for e in a0["p"] if re.match(r"^\.[01]:$", e)]
+            i1 = [e for e in a1["p"] if re.match(r"^\.[01]:$", e)]
+            zt = zips[0][1]
+            # zip(receiver = iterator over the tail after split_at_checked(1), argument = the previous order itself)
+            recv = backward_slice(fx, zt["a"][0])
+            tail = any(re.search(r"split_at_checked$", callee_name(c)) for c in recv["calls"])
+            rr = [root_place(fx, c["a"][0]) for c in recv["calls"] if re.search(r"<impl \[T\]>::iter$", callee_name(c))]
+            tail = tail and any(r_ is not None and ".1:" in r_["p"] for r_ in rr)
+            arg_prev = not any(re.search(r"split_at_checked$", callee_name(c)) for c in backward_slice(fx, zt["a"][1])["calls"])
+            one = [c for c in recv["calls"] if re.search(r"split_at_checked$", callee_name(c))]
+            one = bool(one) and op_int(one[0]["a"][1]) == 1
+            good = i0 == [".0:"] and i1 == [".1:"] and tail and arg_prev and one
+            detail = "checked_sub(item%s, item%s); zip(tail=%s, previous=%s), split at 1: %s" % (i0, i1, tail, arg_prev, one)
+        rep.check("C01.fixed", "order k+1 residual = order k [i+1] - order k [i] (next minus previous, checked)", good, loc_of(fx), detail,
+                  "the iterated difference of the fixed predictors is not `next - previous` over (tail, whole): the decoder adds the prediction back and gets other samples")
+        # warm-up = the first `order` samples of the channel; residuals are the buffer of that order
+        wl = [st_ for bl in fx.blocks for st_ in bl["s"] if st_["rv"]["r"] == "agg" and st_["rv"].get("adt") == "std::ops::Range"]
+        for c in F.closures_of(fx):
+            wl += [("c", c, st_) for bl in c.blocks for st_ in bl["s"] if st_["rv"]["r"] == "agg" and st_["rv"].get("adt") == "std::ops::Range"]
+        okw = False
+        for w_ in wl:
+            if isinstance(w_, tuple):
+                _, c, st_ = w_
+                if op_int(st_["rv"]["ops"][0]) == 0:
+                    e = root_place(c, st_["rv"]["ops"][1])
+                    okw = okw or (e is not None and e["l"] == 2)
+        rep.check("C01.fixed", "warm-up samples are channel[0..order] for the order chosen by enumerate()", okw, loc_of(fx), "",
+                  "the warm-up slice of a fixed subframe is not the first `order` samples")
+
+    # ---- C01.wasted: wasted-bits handling in encode_subframe --------------------------------------------------------
+    wb_ = F.one("encode::encode_subframe")
+    if wb_:
+        wb_ = wb_[0]
+
+        def all_cl(b0):
+            out = []
+            for c in F.closures_of(b0):
+                out.append(c)
+                out += all_cl(c)
+            return out
+        cl_all = all_cl(wb_)
+        tf = [t for _, t in wb_.calls() if re.search(r"Iterator::try_fold$", callee_name(t))]
+        good = False
+        if len(tf) == 1 and tf[0]["cls"]:
+            reg = [F.body(tf[0]["cls"][0])] + all_cl(F.body(tf[0]["cls"][0]))
+            names = [callee_name(t) for c in reg if c for _, t in c.calls()]
+            good = any(re.search(r"<impl i32>::trailing_zeros$", n) for n in names) and any(re.search(r"Ord>::min$|Ord::min$", n) for n in names) and not any(re.search(r"Ord>::max$|Ord::max$", n) for n in names)
+        rep.check("C01.wasted", "wasted bits = minimum number of trailing zero bits over the block", good, loc_of(wb_), "",
+                  "the wasted-bits count is not the minimum of trailing_zeros over all samples: shifting by more drops set bits")
+        # the tuple (channel, bits, wasted) of the shifted arm
+        tuples = [(bi, st_) for bi, bl in enumerate(wb_.blocks) for st_ in bl["s"] if st_["rv"]["r"] == "agg" and st_["rv"]["ak"] == "tuple" and len(st_["rv"]["ops"]) == 3]
+        tl = {st_["d"]["l"] for _, st_ in tuples}
+        rep.check("C01.wasted", "one (samples, bits, wasted) triple feeds all subframe writers", len(tl) == 1 and len(tuples) == 2, loc_of(wb_), str(len(tuples)))
+        for bi, st_ in tuples:
+            ops = st_["rv"]["ops"]
+            if op_int(ops[2]) == 0:
+                s0, s1 = backward_slice(wb_, ops[0]), root_place(wb_, ops[1])
+                rep.check("C01.wasted", "no wasted bits: original samples and depth, wasted = 0", "samples" in s0["fields"] and s1 is not None and "bits_per_sample" in place_fields(s1), wb_.loc(st_["sp"]))
+            else:
+                w_root = root_place(wb_, ops[2])
+                s0 = backward_slice(wb_, ops[0])
+                s1 = backward_slice(wb_, ops[1])
+                sub = [c for c in s1["calls"] if re.search(r"SignedBitCount::<MAX>::checked_sub$|checked_sub$", callee_name(c))]
+                same = bool(sub) and root_place(wb_, sub[0]["a"][1]) == w_root
+                shr = False
+                for c in cl_all:
+                    for _, t in c.calls():
+                        if re.search(r"Shr<u32>>::shr$", callee_name(t)):
+                            cs = capture_source(F, c, t["a"][1])
+                            shr = cs is not None and cs[1] is not None and cs[1]["l"] == (w_root or {}).get("l")
+                rep.check("C01.wasted", "wasted bits: samples shifted right by w, depth reduced by the same w, header carries w", "wasted" in s0["fields"] and same and shr, wb_.loc(st_["sp"]),
+                          "", "the shifted samples, the reduced bit depth and the wasted-bits header field are not derived from one value")
+        if len(tl) == 1:
+            T = next(iter(tl))
+            n_enc = 0
+            for body in [wb_] + cl_all:
+                for _, t in body.calls():
+                    nm = strip_generics(callee_name(t))
+                    if re.match(r"encode::encode_(fixed|lpc|verbatim)_subframe$", nm):
+                        n_enc += 1
+                        got = []
+                        for a in t["a"][-3:]:
+                            if op_place(a) is None:
+                                got.append(None)
+                                continue
+                            cs = capture_source(F, body, a)
+                            got.append((cs[1]["l"], [e for e in cs[1]["p"] if e.startswith(".")][:1]) if cs and cs[1] else None)
+                        want = [(T, [".0:"]), (T, [".1:"]), (T, [".2:"])]
+                        rep.check("C01.wasted", "%s receives the (samples, bits, wasted) triple unchanged" % nm, got == want, loc_of(body, t), "",
+                                  "a subframe writer is not handed the shifted samples / reduced depth / wasted count of this block together: %s" % (got,))
+            rep.floor("C01.wasted", "subframe writer calls", n_enc, 6)
+        # every writer puts its wasted_bps argument into the subframe header
+        for nm in ("constant", "verbatim", "fixed", "lpc"):
+            for hb in F.one("encode::encode_%s_subframe" % nm):
+                hs = [st_ for bl in hb.blocks for st_ in bl["s"] if st_["rv"]["r"] == "agg" and st_["rv"].get("adt") == "stream::SubframeHeader"]
+                argc = hb.j["argc"]
+                good = len(hs) == 1 and (root_place(hb, hs[0]["rv"]["ops"][1]) or {}).get("l") == argc
+                rep.check("C01.wasted", "encode_%s_subframe writes its wasted_bps argument into the subframe header" % nm, good, loc_of(hb))
+
+    # ---- C01.slot: encode_frame emits the two stereo subframes in the slot order of the Correlated result -----------
+    fb = anchor(F, rep, "C01.slot", "encode::encode_frame")
+    if fb is not None:
+        groups = {}
+        for bi, t in fb.calls():
+            if not re.search(r"BitRecorder::<N, E>::playback$", callee_name(t)):
+                continue
+            rp = root_place(fb, t["a"][0])
+            el = [e for e in rp["p"] if e.startswith("[c")]
+            if el:
+                groups.setdefault("exhaustive", []).append((bi, int(el[0][2])))
+                continue
+            ds = [d for d in fb.defs().get(rp["l"], []) if not d[2]["d"]["p"]]
+            if len(ds) == 1 and ds[0][1] == "T" and re.search(r"Try>::branch$", callee_name(ds[0][2])):
+                rx = root_place(fb, ds[0][2]["a"][0])
+                dj = [d for d in fb.defs().get(rx["l"], []) if not d[2]["d"]["p"]]
+                tk = [e for e in rx["p"] if re.match(r"^\.[01]:", e)]
+                if len(dj) == 1 and dj[0][1] == "T" and strip_generics(callee_name(dj[0][2])) in ("encode::join", "rayon::join") and tk:
+                    groups.setdefault("fast", []).append((bi, int(tk[0][1])))
+        for g in ("exhaustive", "fast"):
+            items = groups.get(g, [])
+            good = len(items) == 2
+            if good:
+                a, b2 = items
+                first, second = (a, b2) if fb.dominates(a[0], b2[0]) else (b2, a)
+                good = (first[1], second[1]) == (0, 1)
+            rep.check("C01.slot", "%s stereo branch plays back slot 0 before slot 1" % g, good, loc_of(fb), str(items),
+                      "encode_frame writes the two stereo subframes in the wrong order for the channel assignment in the header: %s" % (items,))
+        for bi, t in fb.calls():
+            if strip_generics(callee_name(t)) in ("encode::join", "rayon::join") and len(t["cls"]) == 2:
+                for k, c in enumerate(t["cls"]):
+                    cb = F.body(c)
+                    es = [tt for _, tt in cb.calls() if strip_generics(callee_name(tt)) == "encode::encode_subframe"] if cb else []
+                    good = False
+                    if len(es) == 1:
+                        cs = capture_source(F, cb, es[0]["a"][2])
+                        good = cs is not None and cs[1] is not None and ("[c%d/2]" % k) in cs[1]["p"]
+                    rep.check("C01.slot", "fast stereo branch: task %d encodes slot %d of the Correlated result" % (k, k), good, loc_of(fb, t), "",
+                              "the two parallel subframe tasks encode the correlated channels in swapped order")
 
     # ---- C01.carve: a seek table inserted at finalize must take exactly its own total size (header + body) from the padding
     from rules import C09
